@@ -118,6 +118,32 @@ def register(db):
         modifies=[f"{Q}.processing", f"{Q}.simple", f"{Q}.delayed"],
     )
 
+    # ---- queue administration: declaring must never disturb a queue that already exists (every enqueue and every
+    # consumer start goes through queue_declare first); flush/delete empty exactly the named queue
+    QN = "self.queues[queue_name]"
+    same = (f"{QN}.simple == old({QN}.simple) and {QN}.delayed == old({QN}.delayed)"
+            f" and {QN}.dead == old({QN}.dead) and {QN}.processing == old({QN}.processing)")
+    empty = f"len({QN}.simple) == 0 and len({QN}.dead) == 0 and len({QN}.processing) == 0 and len({QN}.delayed) == 0"
+    db.contract(
+        fn=B + "queue_declare", serves=["C01"], raises=[],
+        lets={"q_before": "self.queues[queue_name]"},     # names the queue object of the pre-state (lazily created map entry)
+        ensures={"declared": "queue_name in self.queues", "other_queues_still_declared": "forall_str(k, implies(k != queue_name, (k in self.queues) == old(k in self.queues)))",
+                 "existing_queue_keeps_every_message": f"implies(old(queue_name in self.queues), {same})",
+                 "new_queue_is_empty": f"implies(not old(queue_name in self.queues), {empty})"},
+        modifies=["self.queues"],
+    )
+    db.contract(
+        fn=B + "queue_flush", serves=["C01"], raises=[], lets={"q_before": "self.queues[queue_name]"},
+        ensures={"existence_unchanged": "(queue_name in self.queues) == old(queue_name in self.queues)", "other_queues_still_declared": "forall_str(k, implies(k != queue_name, (k in self.queues) == old(k in self.queues)))",
+                 "flushed_queue_is_empty": f"implies(queue_name in self.queues, {empty})"},
+        modifies=["self.queues"],
+    )
+    db.contract(
+        fn=B + "queue_delete", serves=["C01"], raises=[],
+        ensures={"gone": "queue_name not in self.queues", "other_queues_still_declared": "forall_str(k, implies(k != queue_name, (k in self.queues) == old(k in self.queues)))"},
+        modifies=["self.queues"],
+    )
+
 
 # ---------------------------------------------------------------------------------------------------------------
 # C14 / C01 under interference: the single-copy invariant of one in-memory queue.  Every operation is verified a second
